@@ -18,6 +18,13 @@ fn check_thin(ctx: &mut Ctx, a: Point, b: Point) -> Vec<Point> {
         ctx.violation("thin|point-count", case, || format!("{} points, expected max(|dx|,|dy|)+1 = {}", pts.len(), major + 1));
         return pts;
     }
+    // the same points through the other ways of consuming the iterator, from partly consumed states
+    if pts.len() <= 64 {
+        let n = pts.len();
+        if let Some(d) = egmon::target::consumer_disagreement(&|| line.points(), &pts, &[0, 1, n / 2, n - 1, n]) {
+            ctx.violation("thin|points-iterator-consumed-differently", case, || d.clone());
+        }
+    }
     if pts.first() != Some(&a) {
         ctx.violation("thin|does-not-start-at-start", case, || format!("first point {:?}", pts.first()));
     }
